@@ -33,7 +33,7 @@ def _one_fault_run(args):
         # rewrite directories into this scratch dir
         def fix(l):
             return l.replace('@DB@', os.path.join(d, 'db'))
-        lines = fault_gen.script([fix(l) for l in pre], body, tail, k, errno, persistent, partial, kinds, os.path.join(d, 'img'))
+        lines = fault_gen.script([fix(l) for l in pre], [fix(l) for l in body], [fix(l) for l in tail], k, errno, persistent, partial, kinds, os.path.join(d, 'img'))
         rc, out, err = wl_run.run_script(wl_bin, lines, timeout=300)
         problems = []
         if rc != 0:
